@@ -3,9 +3,11 @@ C18 — cached bytecode never makes a module run with the wrong instrumentation.
 -/
 import JaxVerif.Model.Cache
 import JaxVerif.Generated.Hook
+import JaxVerif.Source.Loader
 import JaxVerif.Lemmas.Cache
 
 namespace JV
+set_option linter.unusedSimpArgs false
 
 /-- every entry is what its tag says: written for the version it records, instrumented exactly
     with the typechecker key of its tag (plain under the default tag) -/
@@ -40,11 +42,26 @@ theorem C18_tags (w₁ w₂ : Bool) (l₁ l₂ : Load) (h : l₁.hookedWith ≠ 
     tagFor .getCode w₁ l₁ ≠ tagFor .getCode w₂ l₂ :=
   tags_distinct w₁ w₂ l₁ l₂ h
 
-/-- the source read today confines the patch to `get_code`, puts the typechecker hash into the tag, and compiles
-    nothing under that tag that has not been through the transformer (no fallback path in `source_to_code`) -/
+/-- the source read today puts the typechecker hash into the tag, uses one key everywhere, and compiles nothing under
+    that tag that has not been through the transformer (no fallback path in `source_to_code`); where the patch is in force
+    is no longer a scanned fact but proved from the translated `get_code` / `exec_module` (C18_source_get_code) -/
 theorem C18_generated_good :
-    Generated.cachePatchScope = "get_code" ∧ Generated.cacheTagHasChecker = true ∧ Generated.hookKeyChain = "md5-everywhere" ∧
+    Generated.cacheTagHasChecker = true ∧ Generated.hookKeyChain = "md5-everywhere" ∧
     Generated.cacheTagVersion = 9 ∧ Generated.hookAlwaysTransforms = true := by decide
+
+/-- `_JaxtypingLoader.source_to_code`, translated from the source read today: whatever the run, the only thing compiled
+    under the hook's tag is the transformed tree (Source/Loader.lean) -/
+theorem C18_source_to_code (key : String) (writes : Bool) (gc : LSt → LRes) (active : Option String) :
+    Generated.sourceToCodeCode.run key writes gc (LSt.fresh active) = .code ⟨true, true⟩ :=
+  source_loader_to_code key writes gc active
+
+/-- `get_code` / `exec_module`, translated from the source read today, are `tagFor .getCode` (Source/Loader.lean) -/
+theorem C18_source_get_code (key : String) (writes : Bool) (active : Option String) (name : String) (inside : Option String) :
+    Generated.getCodeCode.run key writes (fun _ => .crash) (LSt.fresh active) = .tag (tagFor .getCode writes ⟨name, some key, inside⟩) ∧
+    Generated.execModuleCode.run key writes (Generated.getCodeCode.run key writes (fun _ => .crash)) (LSt.fresh active)
+      = .norm { LSt.fresh active with got := some (tagFor .getCode writes ⟨name, some key, inside⟩), execActive := some active } ∧
+    tagOfActive none = tagFor .getCode writes ⟨name, none, inside⟩ :=
+  source_loader_get_code key writes active name inside
 
 /-- with the patch spanning the whole `exec_module` a two-run history executes stale code: run 1
     hooks only `a` (which imports `b`), run 2 hooks both — `b` then runs the uninstrumented
